@@ -115,7 +115,7 @@ func runCmpSubject(p *Prog, r *Report) {
 		})
 	}
 	r.Counts["E2.sort-closures"] = n
-	r.ExpectMin("E2.sort-closures", n, 8)
+	r.ExpectMin("E2.sort-closures", n, 5)
 	r.Clauses = append(r.Clauses, "E2 every sort.Slice/SliceStable comparator reads its keys from the slice being sorted")
 }
 
@@ -180,7 +180,7 @@ func runSchemaKeySource(p *Prog, r *Report) {
 		})
 	}
 	r.Counts["E11.schema-key-conversions"] = n
-	r.ExpectMin("E11.schema-key-conversions", n, 3)
+	r.ExpectMin("E11.schema-key-conversions", n, 2)
 	r.Clauses = append(r.Clauses, "E11 schema keys are only built from DependencyKeys.MarshalJSON output")
 }
 
@@ -363,7 +363,7 @@ func runKeyCanonical(p *Prog, r *Report) {
 		}
 	}
 	r.Counts["E11.key-fields"] = n
-	r.ExpectMin("E11.key-fields", n, 2)
+	r.ExpectMin("E11.key-fields", n, 1)
 	r.Clauses = append(r.Clauses, "E11 DependencyKeys.MarshalJSON sorts every slice field it marshals")
 }
 
